@@ -345,6 +345,81 @@ pub use self::hostile::Ty;
     return mods
 
 
+def field_type_inherent_modules(start):
+    """field types with inherent methods named like the trait methods (and misbehaving): every template must reach the trait impl"""
+    body = '''use crate::support::dbg::*;
+#[derive(Educe)]
+#[educe(Debug, Clone, PartialEq, Eq, PartialOrd, Ord, Hash, Default)]
+pub struct St { pub a: Inh, pub b: u8 }
+#[derive(Educe)]
+#[educe(Debug, Clone, PartialEq, Eq, PartialOrd, Ord, Hash, Default)]
+pub struct Tu(pub u8, pub Inh);
+#[derive(Educe)]
+#[educe(Debug(name = true), Clone, PartialEq, Eq, PartialOrd, Ord, Hash, Default)]
+pub enum En { #[educe(Default)] A(Inh, u8), B { x: Inh }, C }
+fn any_en() -> En { match kani::any::<u8>() % 3 { 0 => En::A(Sym::sym(), Sym::sym()), 1 => En::B { x: Sym::sym() }, _ => En::C } }
+fn key(e: &En) -> (u8, u8, u8) { match e { En::A(i, v) => (0, i.0, *v), En::B { x } => (1, x.0, 0), En::C => (2, 0, 0) } }
+'''
+    hs = []
+    h = Harness('h_struct', unwind=12, covers=['reached'])
+    body += h.attrs() + '''pub fn h_struct() {
+    let (p, q, r, s): (u8, u8, u8, u8) = (kani::any(), kani::any(), kani::any(), kani::any());
+    let a = St { a: Inh(p), b: q };
+    let b = St { a: Inh(r), b: s };
+    kani::cover!(true, "reached");
+    assert!((a == b) == ((p, q) == (r, s)) && (a != b) == ((p, q) != (r, s)), "eq went through the inherent eq/ne of the field type");
+    assert!(Ord::cmp(&a, &b) == (p, q).cmp(&(r, s)) && PartialOrd::partial_cmp(&a, &b) == Some((p, q).cmp(&(r, s))), "cmp went through the inherent cmp of the field type");
+    let c = Clone::clone(&a);
+    assert!(c.a.0 == p && c.b == q, "clone went through the inherent clone of the field type");
+    let mut d = St { a: Inh(r), b: s };
+    Clone::clone_from(&mut d, &a);
+    assert!(d.a.0 == p && d.b == q, "clone_from went through the inherent clone_from of the field type");
+    let z = <St as Default>::default();
+    assert!(z.a.0 == 5 && z.b == 0, "default went through the inherent default of the field type");
+    let t = Tu(q, Inh(p));
+    let u = Clone::clone(&t);
+    assert!(u.1 .0 == p && u.0 == q && t == u);
+    let ra = rec_of(&a);
+    let mut want = Rec::new();
+    core::hash::Hash::hash(&Inh(p), &mut want);
+    core::hash::Hash::hash(&q, &mut want);
+    assert!(ra.same(&want), "hash went through the inherent hash of the field type");
+}
+'''
+    hs.append(h)
+    h = Harness('h_enum', unwind=12, covers=['reached'])
+    body += h.attrs() + '''pub fn h_enum() {
+    let a = any_en();
+    let b = any_en();
+    kani::cover!(true, "reached");
+    assert!((a == b) == (key(&a) == key(&b)), "enum eq");
+    assert!(Ord::cmp(&a, &b) == key(&a).cmp(&key(&b)) && PartialOrd::partial_cmp(&a, &b) == Some(key(&a).cmp(&key(&b))), "enum cmp");
+    let c = Clone::clone(&a);
+    assert!(key(&c) == key(&a), "enum clone went through the inherent clone of the field type");
+    let mut d = any_en();
+    Clone::clone_from(&mut d, &a);
+    assert!(key(&d) == key(&a), "enum clone_from");
+    let z = <En as Default>::default();
+    assert!(key(&z) == (0, 5, 0), "enum default");
+}
+'''
+    hs.append(h)
+    h = Harness('h_debug', unwind=40, covers=['reached'])
+    body += h.attrs() + '''pub fn h_debug() {
+    let a = St { a: Inh(3), b: 4 };
+    let (b1, r1) = render(&a, false);
+    kani::cover!(true, "reached");
+    let want = b"St { a: i, b: 4 }";
+    assert!(r1.is_ok() && !b1.overflow && b1.n == want.len());
+    let mut i = 0;
+    while i < want.len() { assert!(b1.b[i] == want[i], "Debug went through the inherent fmt of the field type"); i += 1; }
+}
+'''
+    hs.append(h)
+    return [Module(f'm{start:04d}', 'field type with inherent clone / eq / cmp / hash / fmt / default that misbehave (struct, tuple struct, enum; all traits)', body, hs,
+                   sample=dict(field_type='Inh'), functions=FUNCTIONS)]
+
+
 FUNCTIONS = ['every expansion of C02..C10 generated at a derive site whose field / variant / parameter names are drawn from the generated code and whose module shadows prelude names']
 
 
@@ -462,6 +537,8 @@ def gen(tier, seed):
         m.cfgid = 'Union:' + m.cfgid + f' @ shadow={int(shadow)} inherent={int(inherent)}'
         mods.append(m)
         n += 1
+    n = len(mods)
+    mods += field_type_inherent_modules(n)
     n = len(mods)
     mods += generic_modules(n, upper)
     for m in mods:
